@@ -115,7 +115,10 @@ struct World
               when + ": at offset " + std::to_string(idx) + " the stream reports " + std::to_string(l.line().get()) + ":" + std::to_string(l.column().get()) + ", true location is " + std::to_string(want.first) + ":" + std::to_string(want.second));
   }
 
-  bool fault_now() const { return sb && (sb->threw()); }
+  // a read error has happened: the simulated buffer threw, or an injected allocation failure struck
+  // inside the standard stream itself (a file buffer allocating its buffers; the istream swallows
+  // the exception and sets badbit) - for the code under test both are a stream that went bad
+  bool fault_now() const { return (sb && sb->threw()) || (sim::fault::fired(sim::fault::alloc) && is && is->bad()); }
 
   // Outcome of a SUT call: value / nothing-like / parse exception
   template <typename F>
@@ -134,7 +137,17 @@ struct World
       (void)e;
       return false;
     }
+    catch (std::bad_alloc const &)
+    {
+      // an injected allocation failure is reported as itself; how far the operation got is not
+      // known, so the history ends here (see the run loop)
+      SIM_CHECK(sim::fault::fired(sim::fault::alloc), "undocumented-exception", n + ": bad_alloc without an injected allocation failure");
+      throw AllocAbort{};
+    }
   }
+  struct AllocAbort
+  {
+  };
 
   void op_get(std::string const &n)
   {
@@ -500,14 +513,24 @@ struct World
       ctx.probe("backend_filebuf");
     }
     stream = std::make_unique<stream_t>(fcppt::reference_to_base<std::basic_istream<Ch>>(fcppt::make_ref(*is)));
+    // `af`: allocations the parse code makes are fault sites in this run (`alloc:k` on an operation:
+    // its k-th allocation throws)
+    sim::fault::st().alloc_off = plan.cfg.get("af") == 0;
     unsigned effective = 0;
     for (sim::Op const &op : plan.ops)
     {
-      sim::fault::begin_op(backend == 0 ? op : sim::Op(op.name));
+      {
+        // stream faults need the simulated stream buffer; allocation failures do not
+        sim::Op armed(op.name);
+        if (backend == 0 || op.gets("fault").compare(0, 6, "alloc:") == 0)
+          armed = op;
+        sim::fault::begin_op(armed);
+      }
       if (ctx.trace)
         std::printf("op %s   offset=%zu%s%s\n", op.str().c_str(), i, read_error ? " read_error" : "", failed ? " failed" : "");
       std::uint64_t const ev0 = ctx.events;
       if (!dead)
+      try
       {
         if (op.name == "get")
           op_get(op.name);
@@ -522,11 +545,18 @@ struct World
         else
           sim::violate("harness", "unknown op " + op.name);
       }
+      catch (AllocAbort const &)
+      {
+        dead = true;
+        ctx.probe("op_interrupted_by_bad_alloc");
+        ctx.ev(op.name + " -> bad_alloc");
+      }
       if (ctx.events != ev0)
         ++effective;
       ctx.state(plan.cfg.gets("text") + "@" + std::to_string(i) + (read_error ? "E" : "") + (failed ? "F" : "") + (dead ? "D" : ""));
       ctx.end_op();
     }
+    sim::fault::st().alloc_off = true;
     stream.reset();
     is.reset();
     if (!path.empty())
@@ -570,6 +600,9 @@ void generate(sim::Rng &rng, sim::Plan &p, bool thorough)
     p.cfg.set("faulty", 1);
   if (faulty && rng.chance(1, 3))
     p.cfg.set("trunc", static_cast<long>(rng.below(len + 1)));
+  bool const alloc_faults = rng.chance(1, 4);
+  if (alloc_faults)
+    p.cfg.set("af", 1).set("faulty", 1);
   unsigned const nops = static_cast<unsigned>(rng.range(1, 40));
   unsigned const fault_pct = faulty ? static_cast<unsigned>(rng.range(1, 12)) : 0;
   unsigned const w_parse = static_cast<unsigned>(rng.below(3));
@@ -588,7 +621,9 @@ void generate(sim::Rng &rng, sim::Plan &p, bool thorough)
       op = sim::Op("parse").set("g", static_cast<long>(rng.below(9))).set("sk", static_cast<long>(rng.below(2)));
     else
       op = sim::Op(rng.chance(1, 2) ? "lit" : "cset").set("c", static_cast<long>(rng.below(4)));
-    if (fault_pct != 0 && rng.below(100) < fault_pct)
+    if (alloc_faults && rng.chance(1, 6))
+      op.sets("fault", "alloc:" + std::to_string(rng.range(1, 6)));
+    else if (fault_pct != 0 && rng.below(100) < fault_pct)
     {
       if (op.name == "pos" || op.name == "set" || (op.name == "parse" && rng.chance(1, 2)))
         op.sets("fault", "seek:" + std::to_string(rng.range(1, 3)));
